@@ -24,18 +24,22 @@ contract("Cluster.deserialize", kind="assumed", fresh_result=True,
                   # an unsuccessful attempt writes nothing
                   "implies(not result[1], ghost.files == old(ghost.files) and ghost.vfiles == old(ghost.vfiles) and ghost.file_writes == old(ghost.file_writes))",
                   "ghost.runs == old(ghost.runs)",
-                  "forall(c, Cluster, implies(old(allocated(c)), c.g_promoted == old(c.g_promoted)))"],
+                  "forall(c, Cluster, implies(old(allocated(c)), c.g_promoted == old(c.g_promoted)))",
+                  "ghost.loaded_complete == result[0]._config.is_complete",
+                  # the persisted status invariant holds at every lock-free instant (C09) and the loaded jobs are the submission's jobs
+                  "implies(deserialize_jobs, J(result[0]) and nameset(val(result[0]._job_status).jobs) == ghost.universe)"],
          raises={"Timeout": {"ensures": ["ghost.file_writes == old(ghost.file_writes)", "not ghost.cluster_lock"]}},
          modifies=["ghost.files", "ghost.vfiles", "ghost.file_writes", "Cluster.g_promoted", "Cluster._config", "Cluster._job_status", "Cluster._config_hash",
                    "Cluster._job_status_hash", "Cluster._hostname", "Cluster._config_file", "Cluster._job_status_file", "Cluster._config_version_file",
-                   "Cluster._job_status_version_file", "ClusterConfig.submitter", "ClusterConfig.version"],
+                   "Cluster._job_status_version_file", "ClusterConfig.submitter", "ClusterConfig.version", "ghost.loaded_complete"],
          note="classmethod: Cluster._deserialize under the cluster lock (json + pydantic load; _promote_to_submitter is verified and is what it calls when asked to promote)")
 contract("JobSubmitter.load", kind="assumed", fresh_result=True, params=[("output", "Opaque")], returns="Ref[JobSubmitter]",
          ensures=["Inv_cfg(result._config)", "ghost.universe == nameset(result._config.g_joblist)", "not result._is_new", "result._output == output"],
          modifies=["JobSubmitter._hpc", "JobSubmitter._is_new", "JobManagerBase._config", "JobManagerBase._config_file", "JobManagerBase._output",
                    "JobManagerBase._jobs_output", "JobManagerBase._results"],
-         raises={"InvalidConfiguration": {}, "FileNotFoundError": {}},
-         note="classmethod: create_config_from_file(output/config.json) + constructor (C17); ghost.universe is by definition the configured names")
+         raises={"InvalidConfiguration": {}},
+         note="classmethod: create_config_from_file(output/config.json) + constructor (C17); ghost.universe is by definition the configured names; "
+              "config.json exists in every submission directory")
 
 FT = "jade/cli/try_submit_jobs.py"
 ROLE_BACK = "not cluster.g_promoted and not ghost.cluster_lock"
@@ -57,3 +61,60 @@ contract("try_submit_jobs", file=FT,
              "Exception": {"ensures": ["not ghost.cluster_lock"], "frame": False},
          },
          modifies=["ghost.exit_code"])
+
+# ---- resubmit-jobs (C13; fixed findings F4, F5) ---------------------------------------------------------------------------
+FRS = "jade/cli/resubmit_jobs.py"
+from pyvc.spec import CONTRACTS as _C
+ghost("pruned", "Set[Name]")          # the set of names whose result rows the last _reset_results removed
+ghost("pruned_n", "int")              # how many times results were pruned
+opaque_global("EVENTS_DIR")
+contract("load_data", kind="assumed", params=[("filename", "Opaque")], returns="List[Opaque]", fresh_result=True, note="json/toml loader (list of group dicts)")
+contract("_get_jobs_to_resubmit", kind="assumed", params=[("cluster", "Ref[Cluster]"), ("output", "Opaque"), ("failed", "bool"), ("missing", "bool"), ("successful", "bool")],
+         returns="Set[Name]", ensures=["subset(result, ghost.universe)"],
+         note="BOUNDED only: names selected by the flags from results.json (failed/canceled, successful) and the jobs without a result (missing); "
+              "a list mixing Result and Job objects, outside the typed subset")
+contract("_reset_results", kind="assumed", params=[("output", "Opaque"), ("jobs_to_resubmit", "Set[Name]")],
+         ensures=["ghost.pruned == jobs_to_resubmit and ghost.pruned_n == old(ghost.pruned_n) + 1",
+                  # result pruning: exactly the rows of these names are removed (ResultsAggregator.clear_results_for_resubmission)
+                  "forall(x, Name, (x in ghost.collected) == (x in old(ghost.collected) and x not in jobs_to_resubmit))",
+                  "forall(x, Name, (x in ghost.collected_failed) == (x in old(ghost.collected_failed) and x not in jobs_to_resubmit))"],
+         modifies=["ghost.pruned", "ghost.pruned_n", "ghost.collected", "ghost.collected_failed"],
+         note="ResultsAggregator.load(output).clear_results_for_resubmission(set): keeps the rows whose name is not in the set (csv boundary; bounded by the C13 harness)")
+contract("Opaque.iterdir", kind="assumed", params=[("self", "Opaque")], returns="List[Opaque]", fresh_result=True,
+         raises={"FileNotFoundError": {"when": ["self not in ghost.fs"], "iff": True, "frame": True}}, note="pathlib.Path.iterdir: the directory must exist (T-fs)")
+contract("Opaque.unlink", kind="assumed", params=[("self", "Opaque")], modifies=["ghost.fs"], note="pathlib.Path.unlink of an events file")
+
+RS_KEEP = ("unchanged(Job.state) and unchanged(Job.blocked_by) and ghost.collected == old(ghost.collected) and ghost.pruned_n == old(ghost.pruned_n) "
+           "and ghost.runs == old(ghost.runs)")
+contract("resubmit_jobs", file=FRS,
+         params=[("output", "Opaque"), ("failed", "bool"), ("missing", "bool"), ("successful", "bool"), ("submission_groups_file", "Opt[Opaque]"), ("verbose", "bool")],
+         locals={"ret": "int", "jobs_to_resubmit": "Set[Name]", "updated_blocking_jobs_by_name": "Dict[Name,Set[Name]]", "groups": "List[Opaque]", "found": "bool"},
+         requires=["not ghost.cluster_lock", "forall(c, Cluster, not c.g_promoted)", "subset(ghost.collected, ghost.universe)"],
+         ensures=["False"],
+         loops={1: {"invariant": ["Inv_handle(cluster) and cluster.g_promoted and not ghost.cluster_lock and cluster._config.is_complete", RS_KEEP,
+                                  "J(cluster) and not isnone(cluster._job_status) and nameset(val(cluster._job_status).jobs) == ghost.universe",
+                                  "cluster._config.version == disk_cv(cluster) and val(cluster._job_status).version == disk_jv(cluster)"]},
+                2: {"invariant": ["len(cluster._config.submission_groups) == len(_it2)",
+                                  "Inv_handle(cluster) and cluster.g_promoted and not ghost.cluster_lock and cluster._config.is_complete", RS_KEEP,
+                                  "J(cluster) and not isnone(cluster._job_status) and nameset(val(cluster._job_status).jobs) == ghost.universe",
+                                  "cluster._config.version == disk_cv(cluster) and val(cluster._job_status).version == disk_jv(cluster)"]},
+                3: {"invariant": ["Inv_handle(cluster) and cluster.g_promoted and not ghost.cluster_lock and not cluster._config.is_complete",
+                                  "ghost.pruned == ghost.reset_set and ghost.pruned_n == old(ghost.pruned_n) + 1",
+                                  "subset(ghost.collected, ghost.universe)"]}},
+         raises={
+             "SystemExit": {"ensures": [
+                 "not cluster.g_promoted and not ghost.cluster_lock",                      # C10/F4: the role is given back iff it was taken, before every exit
+                 # refusal: an incomplete submission is left exactly as it was (jobs, results, counters), exit status 1
+                 "implies(not old_complete_flag(), ghost.exit_code == 1 and " + RS_KEEP + ")",
+                 # otherwise: results were pruned exactly once, for exactly the closed set that was also reset (closure BEFORE pruning)
+                 "implies(ghost.pruned_n != old(ghost.pruned_n), ghost.pruned_n == old(ghost.pruned_n) + 1 and ghost.pruned == ghost.reset_set)",
+             ], "frame": False},
+             "Timeout": {"ensures": ["not ghost.cluster_lock"], "frame": False},
+             "Exception": {"ensures": ["not ghost.cluster_lock"], "frame": False},
+             "AssertionError": {"ensures": ["not ghost.cluster_lock"], "frame": False},
+             # F5: a missing events/ directory (reports disabled) must not abort the command after results were pruned and the state reset
+             "FileNotFoundError": {"when": ["False"], "iff": True, "ensures": [], "frame": False},
+         },
+         defs={"old_complete_flag": ([], "ghost.loaded_complete")},
+         modifies=["ghost.exit_code"])
+ghost("loaded_complete", "bool")
